@@ -711,3 +711,12 @@ func (g *Gen) missingContractFuncs() []missingFunc {
 	sort.Slice(out, func(i, j int) bool { return out[i].fnKey < out[j].fnKey })
 	return out
 }
+
+// ifaceKeyOf: the key under which `interface I.M` contracts are stored, for a value of (alias of) named interface type ty.
+func (g *Gen) ifaceKeyOf(ty types.Type, method string) string {
+	n, ok := types.Unalias(ty).(*types.Named)
+	if !ok {
+		return ""
+	}
+	return g.typeKey(n) + "." + method
+}
